@@ -91,7 +91,8 @@ Templates ==
       T(<<"sort_by_label(", "$v", ", ", "$t", ")">>, "v", TRUE),
       T(<<"info(", "$v", ")">>, "v", TRUE),
       T(<<"info(", "$v", ", {k=~\".+\"})">>, "v", TRUE),
-      T(<<"max_of(", "$v", ", ", "$v", ")">>, "v", TRUE),
+      T(<<"max_of(", "$s", ", ", "$s", ")">>, "s", TRUE),
+      T(<<"min_of(", "$s", ", ", "$s", ")">>, "s", TRUE),
       T(<<"-", "$v">>, "v", FALSE),
       T(<<"-", "$s">>, "s", FALSE),
       \* subqueries
